@@ -343,6 +343,8 @@ def r4_required_stays_required(ctx):
 
 
 def check(ctx):
+    from .c19 import r17_macro_strings_are_written_as_given
+    r17_macro_strings_are_written_as_given(ctx, 'C18.R5', 'shared with C19.R17 (the configuration key only) — the key is what links the generated `ApplicationConfig` field to the entry of `base.yml` / `<profile>.yml` / `PX_<KEY>__..`: ', only='config::')
     r4_required_stays_required(ctx)
     r1_merge_chain(ctx)
     r2_errors(ctx)
